@@ -236,6 +236,17 @@ def run_case(j, e, s):
         if pt is not None:
             check(j, float(np.max(np.abs(pt - ep))) <= TOL * mag, "Plucker.intersect_plane", feat, "wrong-parameter",
                   dict(detail, lam=float(h.lam)), ("hit", "lam", s))
+        # the plane given as a Plane OBJECT, used for two intersections (the line and the same line reversed): the
+        # second one must find the same point - a plane is a value, an intersection does not consume it
+        plo = guard("Plane", lambda: Plane(pl.copy()), ("hit", "Plane", s))
+        if plo is not None:
+            for tag_, LL in (("first", L), ("second", Plucker.PQ(P3(c["Q"]), P3(c["P"])))):
+                h2 = guard("Plucker.intersect_plane(Plane)", lambda: LL.intersect_plane(plo), ("hit", "obj", tag_, s))
+                if h2 is None:
+                    j.fail("%s|Plucker.intersect_plane(Plane)|%s;%s|returned-None" % (PID, feat, tag_), detail, ("hit", "obj", tag_, s))
+                    continue
+                check(j, float(np.max(np.abs(np.asarray(h2.p, dtype=float) - ep))) <= TOL * mag, "Plucker.intersect_plane(Plane)",
+                      feat + ";" + tag_, "wrong-point", detail, ("hit", "obj", tag_, s))
     elif k == "plane":
         p, n = P3(c["p"]), np.array(c["n"], dtype=float)
         pl = guard("Plane.PN", lambda: Plane.PN(p, n), ("plane", "PN", s))
